@@ -157,8 +157,8 @@ CHECKS["C19"] = {
         "harness": "c19_roundtrip", "sources": ["engines/msgmc/c19_roundtrip.cpp"],
         "variant": "plain", "libset": "core",
         "quick": {"parts": 16, "deadline": 55,
-                  "bounds": "(a) 3.8e6 field lists; (a2) texts <=5; (b) 216 message shapes x 2971 field lists + 4 x 21^3 text triples + 2 shapes x 1190 divisor/template field sequences (length<=2) in forked children"},
+                  "bounds": "(a) 3.8e6 field lists; (a2) texts <=5; (b) 216 message shapes x 2971 field lists + 4 x 31^3 text triples (alphabet with the double quote) + 2 shapes x 1190 divisor/template field sequences (length<=2) in forked children"},
         "thorough": {"parts": 16, "deadline": 840,
-                     "bounds": "(a) + 1-2 fields of length<=4; (a2) texts <=6; (b) 396 message shapes x 2971 field lists + 6 shapes x 54^3 three-field lists + 6 x 101^3 text triples + 2 shapes x 40494 divisor/template field sequences (length<=3) in forked children"},
+                     "bounds": "(a) + 1-2 fields of length<=4; (a2) texts <=6; (b) 396 message shapes x 2971 field lists + 6 shapes x 54^3 three-field lists + 3 x 181^3 + 3 x 31^3 text triples (alphabet with the double quote) + 2 shapes x 40494 divisor/template field sequences (length<=3) in forked children"},
     }],
 }
